@@ -23,6 +23,7 @@ INV = {
     'C13': ['Inv_C13_Deterministic', 'Inv_C13_Conservation', 'Inv_C13_LabelsAndAnnotations', 'Inv_C13_FuncAllowList'],
     'C16': ['Inv_C16_NoDeployUnlessAdmissible', 'Inv_C16_Conditions', 'Inv_C16_NoRepull', 'Inv_C16_TemplateIsRender', 'Inv_C16_ValidPackageDeploys', 'Inv_C19_NoPanic'],
     'C17': ['Inv_C17_Verdict', 'Inv_C17_AllFailuresReported', 'Inv_C17_CELMustBeBoolean', 'Inv_C17_ObjectUnchanged', 'Inv_C17_NoPanic'],
+    'C18': ['Inv_C18_OutputIsRender', 'Inv_C18_InvalidNoWrite', 'Inv_C18_Freed', 'Inv_C11_Scope', 'Inv_C19_NoPanic'],
     'C19': ['Inv_C19_NoPanic'],
 }
 
@@ -102,7 +103,8 @@ def g_dep_archive(e):
     return e['actor'] in ('od', 'cod') and ((e['ev'] == 'Update' and e['args']['body']['cr']['lifecycle'] == 'Archived') or e['ev'] == 'Delete')
 
 
-GUARDS = {'C16': lambda e: e['ev'] == 'Pull',
+GUARDS = {'C18': lambda e: e['ev'] == 'C18Check',
+          'C16': lambda e: e['ev'] == 'Pull',
           'C17': lambda e: e['ev'] == 'C17Row',
           'C20': lambda e: e['ev'] in ('C20Release', 'C20Stress') and (e['ev'] == 'C20Stress' or len(e['args']['returned']) > 0),
           'C12': lambda e: e['ev'] in ('C12Op', 'C12Quiescent'),
@@ -112,6 +114,7 @@ GUARDS = {'C16': lambda e: e['ev'] == 'Pull',
           'C09': g_paused, 'C11': g_preflight}
 
 RULES = {
+    'C18': 'non-trivial: a quiescence checkpoint of a seeded history of source creations / edits / deletions, template edits, output tampering and restarts was judged; distinct by event sequence',
     'C16': 'non-trivial: the Package controller pulled an image (valid, each invalidity class, unmet constraints, pull failure) in a seeded walk with spec edits, API faults and conflicts; distinct by event sequence',
     'C13': 'one case = one abstract package rendered k times in one process; distinct abstract packages are counted',
     'C17': 'one case = one (probe list, object) row: every single-entry probe list x every abstract object exhaustively, lists of 2-3 entries sampled by seed',
@@ -344,6 +347,11 @@ CHECKS = {
                 level_text='Every row of the abstract probe-list x object table (single-entry lists exhaustively, longer lists sampled/seeded) is concretised, run through the real internal/probing.Parse and pkg/probing probers, and TLC compares verdict, number of reported failures, parse errors and object immutability with the TLA+ function Probing!Pass.',
                 jobs=lambda tier, seed: [dict(name='probe-table', module='TraceProbing', shards=8 if tier == 'quick' else 14,
                                               driver=['probe-table', '-n', '4000' if tier == 'quick' else '300000', '-seed', str(seed)])]),
+    'C18': dict(level='model_checking', invariants=INV['C18'], assumptions=ASSUME + [
+        'reconciles are triggered through the real EnqueueWatchingObjects handler (changes of cache-labelled objects of watched kinds) and RequeueAfter timers',
+        'template domain: one template family (required + optional ConfigMap source), unparsable template, out-of-namespace source / target'],
+        jobs=lambda tier, seed: [dict(name='template-walk', shards=4 if tier == 'quick' else 14,
+                                      driver=['template-walk', '-n', '140' if tier == 'quick' else '7000', '-steps', '14', '-seed', str(seed)])]),
     'C20': dict(level='model_checking', invariants=INV['C20'], module='TraceReqMgr',
                 assumptions=['the registry pull is a gated test function installed through a build-tag guarded accessor; RequestManager, its lock, channels and deep copies are the real code',
                              'interleavings inside the mutex-protected sections are reached only by chance (stress driver)'],
